@@ -31,9 +31,9 @@ GSetAll(st, h, v) == IF h = {} THEN st
                           GSetAll(IF p = "sep" THEN Step(st, [A0 EXCEPT !.op = "gsetlist", !.v = v])
                                   ELSE IF p \in KnownPaths THEN Step(st, [A0 EXCEPT !.op = "gset", !.path = p, !.v = v]) ELSE st, h \ {p}, v)
 ViaGlobal(h, v) == Step(GSetAll(s, h, v), [A0 EXCEPT !.op = "construct", !.c = 2]).t["S2"]
-Inv_C12_RoutesEquivalent == \A h \in Partials, v \in {1, 2} : ViaCall(h, v) = ViaYaml(h, v) /\ ViaYaml(h, v) = ViaGlobal(h, v)
+Inv_C12_RoutesEquivalent == \A h \in Partials, v \in Vals : ViaCall(h, v) = ViaYaml(h, v) /\ ViaYaml(h, v) = ViaGlobal(h, v)
 (* a per-call run is unaffected by what the global holds for the keys it overrides *)
-Inv_C12_OverridesWin == \A h \in Partials : \A v \in {1, 2} :
+Inv_C12_OverridesWin == \A h \in Partials : \A v \in Vals :
    LET viaDirty == ViaCall(h, v)
        clean == [s EXCEPT !.t = [s.t EXCEPT !["G"] = Default]]
        viaClean == Step(Step(clean, [A0 EXCEPT !.op = "setcaller", !.u = 2, !.has = h, !.v = v]), [A0 EXCEPT !.op = "construct", !.c = 2, !.u = 2]).t["S2"]
